@@ -19,7 +19,7 @@ func c08bool(name string, aspect int, def bool) bool {
 func VH_c08_negotiate() {
 	fams := []bgp.Family{bgp.RF_IPv4_UC, bgp.RF_IPv6_UC}
 	g := &oc.Global{}
-	g.Config.As = 65000
+	g.Config.As = 64999 // the neighbour below overrides it with local-as 65000: the session's local AS counts
 	g.Config.RouterId = vAddr4(1, 1, 1, 1)
 
 	// local configuration: which families, ADD-PATH per family, timers
